@@ -29,6 +29,9 @@ func init() {
 			{ID: "C03.6", Desc: "upper-case hex alphabet", Run: ruleC03_6, MinSites: 1},
 			{ID: "C03.7", Desc: "an IP-literal host keeps (or regains) its brackets before ':port' is appended", Run: func(c *Ctx) { ruleC03_7(c); ruleC03_7b(c) }, MinSites: 1},
 			{ID: "C03.8", Desc: "the id under which a response is filed survives the JSON index (an id changed by the index names the entry of another URI)", Run: func(c *Ctx) { ruleIndexValuesUTF8Safe(c, "C03.8") }, MinSites: 1},
+			{ID: "C03.9", Desc: "the file-system backend maps different keys to different files (the key's own bytes are encoded)", Run: func(c *Ctx) { ruleFileNameFromKeyBytes(c, "C03.9") }, MinSites: 1},
+			{ID: "C03.10", Desc: "the background revalidation works on a deep copy of the caller's request (its URL included)", Run: func(c *Ctx) { ruleC20_6(c); renameRule(c, "C20.6", "C03.10") }, MinSites: 1},
+			{ID: "C03.11", Desc: "a reference read from the index of a URI names an entry of that URI", Run: func(c *Ctx) { ruleIndexRefsBelongToKey(c, "C03.11") }, MinSites: 1},
 		},
 	})
 }
@@ -857,6 +860,21 @@ func ruleDotAfterDecode(c *Ctx, rule string) {
 			for _, a := range pathArgs {
 				if fed(a, 0) {
 					ok = true
+				}
+			}
+			// … and is applied whatever the host looks like: not under the success of a parse that can fail
+			for _, dc := range controlConds(in.Block()) {
+				for _, lf := range condLeaves(dc.cond, dc.onTrue) {
+					if bo, isB := lf.v.(*ssa.BinOp); isB && (isNilConst(bo.X) || isNilConst(bo.Y)) {
+						other := bo.X
+						if isNilConst(bo.X) {
+							other = bo.Y
+						}
+						if types.Identical(other.Type(), types.Universe.Lookup("error").Type()) {
+							c.Fail(rule, fmt.Sprintf("dot-removal-unconditional fn=%s#%d", c.P.ShortName(fn), n), "dot segments are removed for every URL, not only when a parse of its printed form succeeds",
+								where+": the remover runs only when `"+lf.v.String()+"` says a parse succeeded; for a host that does not survive printing and re-parsing (`[fe80::1%25eth0]`) `/a/../b` keeps its dots")
+						}
+					}
 				}
 			}
 			key := fmt.Sprintf("dot-after-decode fn=%s#%d", c.P.ShortName(fn), n)
